@@ -167,10 +167,12 @@ func callAPI(ebr *EndpointBridgeRequest) (record.Record, error) {
 	w := httptest.NewRecorder()
 	// Let the API handle the request.
 	server.Handler.ServeHTTP(w, r)
-	switch w.Code {
-	case 200:
+	switch {
+	case w.Code >= 200 && w.Code <= 299:
 		// Everything okay, continue.
-	case 500:
+		// This includes 204, which endpoints answer with if they succeed
+		// without returning any data.
+	case w.Code == 500:
 		// A Go error was returned internally.
 		// We can safely return this as an error.
 		return nil, fmt.Errorf("bridged api call failed: %s", w.Body.String())
